@@ -310,4 +310,78 @@ def Pool.unconfirmed (P : Pool) (a : Nat) : Pool × List Tx × List Tx :=
   let L := (P.acquire a).2
   ((P.acquire a).1, L.list.take L.ready, L.list.drop L.ready)
 
+
+/-! ### The locked half of a submission (concurrency)
+
+`MemPool.put` runs its pre-check — `mp.cache.Load(id)` and `validateTx` — *before* `mp.Lock()` (mempool.go:356-370);
+what runs under the lock starts at `acquireMemPoolList`. Several verifier goroutines, the pool actor (block
+notifications, removals, fetches, reports) and the monitor goroutine (eviction) interleave at the granularity of
+these critical sections: between the pre-check of a submission and its locked half anything may happen. -/
+
+/-- The pre-check of `put`: `some r` = refused with `r` before the lock is taken, `none` = goes on to the lock. -/
+def Pool.putCheck (P : Pool) (tx : Tx) : Option PutRes :=
+  if cacheHas tx.id P.cache then some .already else
+  match validate (P.state tx.acc) tx with
+  | some .low => some .low
+  | some .insufficient => some .insufficient
+  | _ => none
+
+/-- The critical section of `put`: acquire, `list.Put`, `orphan -= diff`, `cache.Store`, `length++`, deferred release —
+whatever the pre-check saw earlier (no cache look-up and no validation in here). -/
+def Pool.putLocked (P : Pool) (tx : Tx) : Pool × PutRes :=
+  let P1 := (P.acquire tx.acc).1
+  let L := (P.acquire tx.acc).2
+  match (L.put tx).2 with
+  | .error e => (P1.release tx.acc, match e with | .low => .low | .same => .same)
+  | .ok diff =>
+    let P2 := { P1 with lists := setL tx.acc (L.put tx).1 P1.lists, orphan := P1.orphan - diff,
+                        cache := cacheStore tx P1.cache, length := P1.length + 1 }
+    (P2.release tx.acc, .ok)
+
+/-! ### The chain side: what the chain service sends the pool
+
+chain/chainhandle.go `executeBlock` ends with `notifyEvents(block)` = one `MemPoolDel{block}` per executed block;
+chain/reorg.go `rollforward` executes the blocks of the new branch oldest first through the same function, and
+`swapTxMapping` then sends one `MemPoolPut` for every transaction of the abandoned blocks that no new block carries.
+The pool actor handles these messages in the order sent (the re-submissions go through the front end:
+signature / sender-name resolution, then `put`). -/
+
+/-- A block as the pool sees it: identifier, parent, chain id, accounts named by its transactions, the account
+states at its state root, its transactions. -/
+structure Blk where
+  id : Nat
+  parent : Nat
+  chain : Nat
+  dirty : List Nat
+  σ : Nat → Acct
+  txs : List Tx
+
+/-- One `MemPoolDel{block}` processed. -/
+def Pool.notify (P : Pool) (b : Blk) : Pool := P.blockArrival b.id b.parent b.chain b.dirty b.σ
+
+/-- `swapTxMapping`: transactions of the abandoned blocks minus those some new block carries (by hash). -/
+def rolledBack (old new : List Blk) : List Tx :=
+  (old.flatMap (·.txs)).filter (fun t => !((new.flatMap (·.txs)).any (fun u => u.id == t.id)))
+
+/-- Submissions one after the other. -/
+def Pool.resubmit (P : Pool) (txs : List Tx) : Pool := txs.foldl (fun Q t => (Q.put t).1) P
+
+/-- What the pool goes through when the chain service makes `new` (oldest first) the end of the main chain in place
+of `old` (`old = []`: plain connection): the notifications in order, then the rolled-back transactions the front end
+admits (`accept`: signature and sender-name resolution against the new state — outside this model). -/
+def Pool.chainEvent (P : Pool) (old new : List Blk) (accept : Tx → Bool) : Pool :=
+  (new.foldl Pool.notify P).resubmit ((rolledBack old new).filter accept)
+
+/-! ### Further queries -/
+
+/-- `existEx`: one answer per requested hash, in the order asked. -/
+def Pool.existEx (P : Pool) (ids : List Nat) : List (Option Tx) := ids.map P.exist
+
+/-- Hashes of everything offered (`listHash` without limit). -/
+def Pool.offeredIds (P : Pool) : List Nat := (P.get.flatMap (·.2)).map (·.id)
+
+/-- `getUnconfirmed(nil, true)`: per list (account, offered, held aside). -/
+def Pool.txStat (P : Pool) : List (Nat × Nat × Nat) :=
+  P.lists.map fun e => (e.1, e.2.ready, e.2.list.length - e.2.ready)
+
 end Aergo.Pool
